@@ -371,6 +371,9 @@ def standard_corr(run, harness, corr_name, soft_ulps=0, float_fields=None, sanit
     if exe is None:
         run.oblige(f'harness-build:{harness}', False, log); return None
     out = os.path.join(run.work, harness + '_' + tier)
+    # quick tier: a harness that normally runs for 1-5 minutes and is still running after 25 has met a loop that does not end
+    # (reported below as harness-abort with the last case as replay) -- do not wait for the thorough-tier limit
+    if tier == 'quick' and timeout == 3000: timeout = 1500
     rc, hlog = run_harness(exe, out, run.seed, tier, harness_args, timeout=timeout)
     stats = {}
     try: stats = json.load(open(os.path.join(out, 'stats.json')))
